@@ -19,7 +19,7 @@ RULE = ('cases are seeded load/unload/select histories (5-40 steps) over a per-r
         'unload, a still-loaded key shared an alias with an unloaded or re-loaded one and the full invariant sweep ran; '
         'distinct = distinct step-kind sequences among non-trivial runs')
 TIERS = {'quick': {'runs': 6000, 'budget_s': 50}, 'thorough': {'runs': 400000, 'budget_s': 1500}}
-PROBES = ('alias_shared_by_3', 'pub_and_priv_both_loaded', 'batch_failed_at_k>0', 'reload_after_unload',
+PROBES = ('subkey_unloaded_on_its_own', 'alias_shared_by_3', 'pub_and_priv_both_loaded', 'batch_failed_at_k>0', 'reload_after_unload',
           'same_key_loaded_twice', 'unload_with_shared_alias', 'select_by_signature', 'select_by_message',
           'load_from_path', 'load_concat_blob')
 
@@ -75,6 +75,9 @@ def generate(rng, tier):
                 st['fault'] = {'kind': 'X2', 'at': rng.randrange(nitems + 1),
                                'how': rng.choice(['truncated', 'wrong_kind', 'missing_path', 'garbage'])}
             steps.append(st)
+        elif r < w_load + w_unload and rng.random() < 0.12:
+            # a subkey object, selected by its own fingerprint, unloaded on its own: its primary stays
+            steps.append({'id': sid, 'op': 'unload_subkey', 'key': rng.choice(focus if rng.random() < 0.8 else knames), 'sub': rng.randrange(3)})
         elif r < w_load + w_unload:
             steps.append({'id': sid, 'op': 'unload', 'key': rng.choice(focus if rng.random() < 0.8 else knames),
                           'by': rng.choice(['obj', 'obj', 'fp', 'keyid', 'shortid', 'name', 'email', 'spaced_fp']),
@@ -272,6 +275,8 @@ def execute(case, ctx):
             _do_load(w, step, ctx)
         elif op == 'unload':
             _do_unload(w, step, ctx)
+        elif op == 'unload_subkey':
+            _do_unload_subkey(w, step, ctx)
         elif op in ('select_sig', 'select_msg'):
             _do_select(w, step, ctx)
         _sweep(w, ctx, step['id'])
@@ -471,6 +476,37 @@ def _do_unload(w, step, ctx):
     if shared:
         ctx.probe('unload_with_shared_alias')
         ctx.mark_nontrivial('shared-unload')
+
+
+def _do_unload_subkey(w, step, ctx):
+    kr = w.kr
+    if step['key'] not in w.keys:
+        return
+    subs = [str(sk.fingerprint) for sk in w.keys[step['key']]['priv'].subkeys.values()]
+    if not subs:
+        return
+    sfp = subs[step['sub'] % len(subs)]
+    holders = [e for e in w.loaded if sfp in e.subfps]
+    if not holders:
+        return
+    try:
+        with kr.key(sfp) as sel:
+            target = sel
+    except KeyError:
+        ctx.viol('C19:alias-lost:subkey-fingerprint', 'the fingerprint of a loaded subkey selects nothing')
+        return
+    # which model entry does the selected subkey object belong to?
+    cands = [e for e in holders if not isinstance(e.obj, _Unknown) and any(sk is target for sk in e.obj.subkeys.values())]
+    if not cands:
+        # the selected subkey belongs to a key object the keyring made itself from a blob; those are interchangeable in the model
+        # only as long as they are whole, so such a subkey is left alone
+        return
+    ent = cands[0]
+    ctx.probe('subkey_unloaded_on_its_own')
+    kr.unload(target)
+    ent.subfps = [x for x in ent.subfps if x != sfp]
+    w.ever_unloaded = True
+    ctx.mark_nontrivial('subkey-unload')
 
 
 def _do_select(w, step, ctx):
